@@ -164,6 +164,10 @@ class ArffLineReader(Filter[str, Sequence[str]]):
         self._dialect        = dict(skipinitialspace=True,escapechar="\\",doublequote=False)
         self._quotechar      = None
 
+        #only used when parsing sparse lines
+        self._r_sparse  = re.compile(r'''\s*(-?\d+)\s+('(?:[^'\\]|\\.)*'|"(?:[^"\\]|\\.)*"|[^\s,]+)\s*,?''')
+        self._r_unquote = re.compile(r"\\(.)")
+
         if self._is_dense:
             self._set_filter(self._dense)
         else:
@@ -204,16 +208,19 @@ class ArffLineReader(Filter[str, Sequence[str]]):
         return self.filter(line)
 
     def _sparse(self, line:str) -> Mapping[int,str]:
-        keys_and_vals = re.split('\s*,\s*|\s+', line.strip("} {"))
+        line   = line.strip("} {")
+        parsed = {}
+        start  = 0
 
-        if keys_and_vals != ['']:
-            keys = list(map(int,keys_and_vals[0::2]))
-            vals = keys_and_vals[1::2]
-        else:
-            keys = []
-            vals = []
+        while start < len(line):
+            match = self._r_sparse.match(line,start)
+            if not match:
+                raise CobaException("We were unable to parse a line in a way that matched the expected attributes.")
+            key,val = match.groups()
+            if val[0] in self._quotes: val = self._r_unquote.sub(r"\1",val[1:-1])
+            parsed[int(key)] = val
+            start = match.end()
 
-        parsed = dict(zip(keys,vals))
         if parsed and (min(parsed.keys()) < 0 or self._n_columns <= max(parsed.keys())):
                 raise CobaException(f"We were unable to parse a line in a way that matched the expected attributes.")
         return parsed
